@@ -234,6 +234,9 @@ struct Monitor {
                   if ((mv)||(Reordered(before[tb], after[tc]))) mm.re = true;
                   tab[i] = tc;
                }
+               if ((real.h == 0)&&(mm.prev.h == 1)&&(!mm.re)) {   // the traversal ended without a ++: nothing that is still ahead may be lost
+                  for (std::set<int>::const_iterator q = mm.must.begin(); q != mm.must.end(); ++q) if (!mm.seen.count(*q)) {snprintf(buf, sizeof(buf), "%s(%ld,%ld,%ld) ended the traversal of iterator %d (no reordering crossed it) before it visited key %d, which was present throughout", OPN[op], a, b, c, i+1, *q); viol.push_back(buf); break;}
+               }
                if ((real.h == 1)&&(!(real == mm.prev))&&(!HasPair(after[tc], real.k, real.v))&&(!HasPair(before[tb], real.k, real.v))) {
                   snprintf(buf, sizeof(buf), "after %s(%ld,%ld,%ld) iterator %d shows (%d,%d): neither an entry of its table nor the copy of the entry it was on", OPN[op], a, b, c, i+1, real.k, real.v); viol.push_back(buf);}
             }
